@@ -43,6 +43,14 @@ def collect():
             print("incomplete", out); continue
         shutil.copytree(out, dst)
         print("collected", dst)
+    for out in sorted(glob.glob("/tmp/wt4/A*/_out/C*-m*")):        # round 4: one agent per pair of properties
+        dst = os.path.join(S, os.path.basename(out))
+        if os.path.exists(dst):
+            continue
+        if not all(os.path.exists(os.path.join(out, f)) for f in ("patch.diff", "demo.py", "meta.json")):
+            print("incomplete", out); continue
+        shutil.copytree(out, dst)
+        print("collected", dst)
 
 def confirm(sel):
     for i in ids(sel):
